@@ -7,7 +7,7 @@ from ..core import Workload
 from ..env import ptn
 
 KINDS = ['real', 'complex', 'symmetric', 'zero-padded', 'single-entry', 'hermitian', 'integer-valued', 'mixed-magnitude', 'lower-triangular-storage',
-         'antisym-ij', 'antisym-kl', 'antisym-both', 'sym-ij', 'product-antisym', 'fully-symmetric']
+         'antisym-ij', 'antisym-kl', 'antisym-both', 'sym-ij', 'product-antisym', 'fully-symmetric', 'unit-entries']
 
 
 def coeffs(rng, L, kind):
@@ -56,6 +56,13 @@ def coeffs(rng, L, kind):
         return t, v
     if kind == 'integer-valued':
         return rng.integers(-2, 3, size=(L, L)), rng.integers(-2, 3, size=(L, L, L, L))
+    if kind == 'unit-entries':
+        # generic coefficients with a few entries exactly 1.0 / -1.0 / 0.5 (values internal code may use as sentinels)
+        t, v = c(L, L), c(L, L, L, L)
+        for _ in range(int(rng.integers(1, 2 + L))):
+            t[int(rng.integers(0, L)), int(rng.integers(0, L))] = float(rng.choice([1.0, 1.0, -1.0, 0.5]))
+            v[tuple(int(x) for x in rng.integers(0, L, size=4))] = float(rng.choice([1.0, 1.0, -1.0, 2.0]))
+        return t, v
     if kind in ('antisym-ij', 'antisym-kl', 'antisym-both', 'sym-ij', 'product-antisym', 'fully-symmetric'):
         # interaction tensors with an EXACT (bitwise) index symmetry: already antisymmetrised input, vanishing antisymmetric part, ...
         t = c(L, L) if rng.random() < 0.5 else rng.normal(size=(L, L))
